@@ -45,5 +45,8 @@ def run(ctx):
     ctx.guard(persistent_state_rule, ctx, "C12.own-pattern")
     # pattern symmetry says which records are accepted only if the search decides acceptance by the compiled pattern alone
     run_kernels(ctx, ["K2"], "C12")
+    # ... and only if a circular record is searched as a circle whatever the spelling / absence of its topology annotation
+    from ..rules_misc import k19_match
+    ctx.guard(k19_match, ctx, "C12")
     from ..rules_misc import text_consumers_rule
     ctx.guard(text_consumers_rule, ctx, "C12.text-consumers")
